@@ -418,13 +418,14 @@ NoReclaimFromLive == Kind("reclaim") = {}
 DeadIsDetected == Kind("undetected") = {}
 \* of several concurrent cleaners at most one owns the files; the others get a documented error
 \* (a second success is legitimate only as the recovery after the first owner crashed)
-ExclusiveCleanup == /\ Kind("exclusive") = {}
-                    /\ Kind("loser") = {}
-                    /\ (\A h \in {"second_owner", "second_owner_blocking_lock", "second_owner_owner_lock_linked"} :
-                              SigExclusive(h) \notin Excused) /\ ~ExcuseAll =>
-                          /\ Cardinality({c \in Cleaners : ps[c].pc \in {"owner", "drop"}}) <= 1
-                          /\ Cardinality({c \in Cleaners : ps[c].cres = "Ok"})
-                                <= 1 + Cardinality({c \in Cleaners : ps[c].pc \in {"x_owner", "x_drop"}}))
+ExclusiveCleanup ==
+    /\ Kind("exclusive") = {}
+    /\ Kind("loser") = {}
+    /\ ((~ExcuseAll /\ \A h \in {"second_owner", "second_owner_blocking_lock", "second_owner_owner_lock_linked"} :
+                         SigExclusive(h) \notin Excused)
+        => /\ Cardinality({c \in Cleaners : ps[c].pc \in {"owner", "drop"}}) <= 1
+           /\ Cardinality({c \in Cleaners : ps[c].cres = "Ok"})
+                 <= 1 + Cardinality({c \in Cleaners : ps[c].pc \in {"x_owner", "x_drop"}}))
 \* after a cleaner crashed, a later cleaner running alone succeeds (or finds nothing left)
 CleanerCrashRecoverable == Kind("unrecoverable") = {}
 
